@@ -88,5 +88,172 @@ theorem split_lower (S A c sa : Nat) (hS : 0 < S) (hc : c ≤ Dec.ONE) (Ts : Lis
     rw [e1]
     omega
 
+-- ---------------------------------------------------------------------------------------------
+-- bounds that do not mention the validator total (using invariant I5), summed over a history of events
+
+/-- `P0` = 10^18 · 10^18 · YEAR: one atomic of reward on the scale on which exact values are integers -/
+def P0 : Nat := Dec.ONE * Dec.ONE * YEAR
+
+/-- C15 upper, one update, under I5 (`sa ≤ 10^18·(S+1)`, `0 < S`): credit ≤ exact + 2 atomics -/
+theorem credit_upper_free (S A c sa T : Nat) (hS : 0 < S) (hc : c ≤ Dec.ONE) (hsa : sa ≤ Dec.ONE * (S + 1)) :
+    creditOf S A c sa T * P0 ≤ A * T * (Dec.ONE - c) * sa + 2 * P0 :=
+  Arith.credit_upper_free S A T c sa Dec.ONE YEAR Dec.ONE_pos hS hc hsa
+
+/-- C15 lower, one update, under I5: exact ≤ credit + 4 atomics -/
+theorem credit_lower_free (S A c sa T : Nat) (hS : 0 < S) (hc : c ≤ Dec.ONE) (hsa : sa ≤ Dec.ONE * (S + 1)) :
+    A * T * (Dec.ONE - c) * sa ≤ (creditOf S A c sa T + 4) * P0 :=
+  Arith.credit_lower_free S A T c sa Dec.ONE YEAR Dec.ONE_pos YEAR_pos hS hc hsa
+
+/-- one reward update as seen by one delegator: validator total `S` (tokens), own share `sa` (atomics), `T` seconds -/
+structure Ev where
+  S : Nat
+  sa : Nat
+  T : Nat
+
+/-- the side conditions that the invariant guarantees for a shown delegation -/
+def Ev.ok (e : Ev) : Prop := 0 < e.S ∧ e.sa ≤ Dec.ONE * (e.S + 1)
+
+/-- the step of one delegator's reward ledger: an update that credits, or a withdrawal -/
+inductive LStep where
+  | credit (e : Ev)
+  | withdraw
+
+/-- the ledger: accumulator (atomics), whole tokens withdrawn, number of withdrawals, number of updates,
+exact value accrued (times `P0`) -/
+structure Ledger where
+  acc : Nat := 0
+  paid : Nat := 0
+  w : Nat := 0
+  n : Nat := 0
+  exact : Nat := 0
+
+def Ledger.step (A c : Nat) (l : Ledger) : LStep → Ledger
+  | .credit e => { l with acc := l.acc + creditOf e.S A c e.sa e.T, n := l.n + 1,
+                          exact := l.exact + A * e.T * (Dec.ONE - c) * e.sa }
+  | .withdraw => { l with acc := 0, paid := l.paid + l.acc / Dec.ONE, w := l.w + 1 }
+
+def Ledger.run (A c : Nat) (l : Ledger) (steps : List LStep) : Ledger := steps.foldl (Ledger.step A c) l
+
+def LStep.ok : LStep → Prop
+  | .credit e => e.ok
+  | .withdraw => True
+
+/-- the two C15 bounds as one invariant of the ledger:
+  upper  (withdrawn tokens + accumulator) ≤ exact + 2 atomics per update
+  lower  exact ≤ withdrawn + accumulator + (one token per withdrawal) + 4 atomics per update -/
+def Ledger.Good (l : Ledger) : Prop :=
+  (l.paid * Dec.ONE + l.acc) * P0 ≤ l.exact + 2 * l.n * P0 ∧
+  l.exact ≤ (l.paid * Dec.ONE + l.acc + l.w * Dec.ONE + 4 * l.n) * P0
+
+theorem Ledger.good_step (A c : Nat) (hc : c ≤ Dec.ONE) (l : Ledger) (st : LStep) (hok : st.ok) (hg : l.Good) :
+    (l.step A c st).Good := by
+  obtain ⟨g1, g2⟩ := hg
+  cases st with
+  | credit e =>
+    obtain ⟨hS, hsa⟩ := hok
+    have u := credit_upper_free e.S A c e.sa e.T hS hc hsa
+    have lo := credit_lower_free e.S A c e.sa e.T hS hc hsa
+    simp only [Ledger.step, Ledger.Good]
+    generalize creditOf e.S A c e.sa e.T = K at u lo ⊢
+    generalize A * e.T * (Dec.ONE - c) * e.sa = X at u lo ⊢
+    generalize P0 = q at *
+    generalize Dec.ONE = o at *
+    constructor
+    · have e1 : (l.paid * o + (l.acc + K)) * q = (l.paid * o + l.acc) * q + K * q := by
+        rw [← Nat.add_mul, Nat.add_assoc]
+      have e2 : 2 * (l.n + 1) * q = 2 * l.n * q + 2 * q := by
+        rw [Nat.mul_add, Nat.mul_one, Nat.add_mul]
+      omega
+    · have e1 : (l.paid * o + (l.acc + K) + l.w * o + 4 * (l.n + 1)) * q
+          = (l.paid * o + l.acc + l.w * o + 4 * l.n) * q + (K + 4) * q := by
+        rw [← Nat.add_mul]; congr 1; omega
+      omega
+  | withdraw =>
+    simp only [Ledger.step, Ledger.Good]
+    have d1 := Nat.div_mul_le_self l.acc Dec.ONE
+    have d2 := Nat.lt_div_mul_add (a := l.acc) Dec.ONE_pos
+    generalize P0 = q at *
+    generalize Dec.ONE = o at *
+    generalize l.acc / o = r at *
+    constructor
+    · have : ((l.paid + r) * o + 0) * q ≤ (l.paid * o + l.acc) * q := by
+        apply Nat.mul_le_mul_right
+        rw [Nat.add_mul]; omega
+      omega
+    · have : (l.paid * o + l.acc + l.w * o + 4 * l.n) * q
+          ≤ ((l.paid + r) * o + 0 + (l.w + 1) * o + 4 * l.n) * q := by
+        apply Nat.mul_le_mul_right
+        rw [Nat.add_mul, Nat.add_mul, Nat.one_mul]; omega
+      omega
+
+/-- C15 upper / lower over a whole history of one delegation period: any interleaving of reward updates (with their
+own validator totals, shares and time spans) and withdrawals keeps
+  withdrawn + pending ≤ Σ exact + 2·n atomics   and   Σ exact ≤ withdrawn + pending + w tokens + 4·n atomics -/
+theorem Ledger.good_run (A c : Nat) (hc : c ≤ Dec.ONE) (steps : List LStep) (l : Ledger)
+    (hok : ∀ st ∈ steps, st.ok) (hg : l.Good) : (l.run A c steps).Good := by
+  induction steps generalizing l with
+  | nil => exact hg
+  | cons st rest ih =>
+    simp only [Ledger.run, List.foldl_cons]
+    exact ih (l.step A c st) (fun x hx => hok x (List.mem_cons_of_mem _ hx))
+      (Ledger.good_step A c hc l st (hok st List.mem_cons_self) hg)
+
+theorem Ledger.good_init : ({} : Ledger).Good := by simp [Ledger.Good]
+
+-- ---------------------------------------------------------------------------------------------
+-- the model's operations are ledger steps
+
+/-- a reward update of `v` at time `now` credits a recorded delegator exactly `creditOf …` (a `credit` step of the
+ledger) -/
+theorem update_is_credit {s s1 : SState} {now : Nat} {v : String} {d : Addr} {vi : ValInfo} {vo : Validator}
+    {sh : Shares} (hi : SInv s) (h : updateRewards s now v = .ok s1)
+    (hvi : get? s.vinfo v = some vi) (hvo : s.validator? v = some vo) (hsh : get? s.stakes (d, v) = some sh)
+    (hlt : vi.last < now) (hS : vi.stake ≠ 0) :
+    (curShares s1 d v).rewards.atomics = sh.rewards.atomics +
+        creditOf vi.stake s.info.apr.atomics vo.commission.atomics sh.stake.atomics (now - vi.last) ∧
+    (curShares s1 d v).stake = sh.stake := by
+  have hvo' : vo ∈ s.validators := List.mem_of_find?_eq_some hvo
+  have hc := hi.comm_le vo hvo'
+  have hcalc := calcRewards_ok now vi.last s.info.apr vo.commission vi.stake (by omega) hc
+  have hcr := credit_eq sh hc (by omega : vi.last ≤ now) hS hcalc
+  obtain ⟨vi2, hv2, hd⟩ := hi.stakes_listed d v sh hsh
+  rw [hvi] at hv2; simp only [Option.some.injEq] at hv2; subst hv2
+  unfold updateRewards at h
+  rw [hvi, hvo] at h
+  simp only at h
+  have hn : ¬ vi.last ≥ now := by omega
+  rw [if_neg hn, hcalc] at h
+  simp only at h
+  split at h
+  · rename_i hz
+    simp only [Outcome.ok.injEq] at h; subst h
+    have hz0 := Dec.eq_zero_of_isZero hz
+    rw [hz0, shareOf_zero] at hcr
+    have e : curShares { s with vinfo := KMap.set s.vinfo v { vi with last := now } } d v = sh := by
+      simp [curShares, hsh]
+    rw [e]
+    exact ⟨by rw [← hcr]; simp [Dec.zero], rfl⟩
+  · split at h
+    · simp only [Outcome.ok.injEq] at h; subst h
+      have e : curShares { s with vinfo := KMap.set s.vinfo v { vi with last := now },
+                                  stakes := creditAll s.stakes v vi
+                                    (Dec.sub (grossReward now vi.last s.info.apr vi.stake)
+                                      (Dec.mul (grossReward now vi.last s.info.apr vi.stake) vo.commission)) } d v
+          = { sh with rewards := Dec.add sh.rewards (shareOfRewards sh vi
+                (Dec.sub (grossReward now vi.last s.info.apr vi.stake)
+                  (Dec.mul (grossReward now vi.last s.info.apr vi.stake) vo.commission))) } := by
+        simp [curShares, get?_creditAll, hsh, hd]
+      rw [e]
+      exact ⟨by rw [← hcr]; rfl, rfl⟩
+    · simp at h
+
+/-- … and under the invariant its side conditions hold whenever the delegation is shown (≥ 1 whole token) -/
+theorem shown_event_ok {s : SState} (ht : TInv s) {d : Addr} {v : String} {sh : Shares} {vi : ValInfo}
+    (hs : get? s.stakes (d, v) = some sh) (hv : get? s.vinfo v = some vi) (hpos : 0 < sh.stake.floor) (T : Nat) :
+    (Ev.mk vi.stake sh.stake.atomics T).ok := by
+  refine ⟨?_, Nat.le_of_lt (share_lt_total_succ ht hs hv)⟩
+  have := floor_le_total ht hs hv
+  simp only; omega
+
 end Staking
 end CwMt
